@@ -498,6 +498,18 @@ pub fn run(args: &Args, out: &mut Out) {
     if let Some(lines) = args.request_lines() {
         for line in lines {
             let f: Vec<&str> = line.split('\t').collect();
+            if f.first() == Some(&"C06.src") && f.len() == 3 {
+                // debugging aid (not part of the protocol): compile a literal source text, print what comes back
+                if let Some(tgt) = crate::compile_util::Tgt::parse(f[1]) {
+                    let src = f[2].replace("\\n", "\n");
+                    let o = e2e::compile(&src, tgt, &crate::compile_util::Mode::All);
+                    eprintln!("{}\n--> {}", src, e2e::show_outcome(&o));
+                    if let e2e::Outcome::Err(e) = &o {
+                        eprintln!("{}", e);
+                    }
+                }
+                continue;
+            }
             if f.first() == Some(&"C06.compile") {
                 if let Some((tgt, mode, prog)) = e2e::parse_request(&f) {
                     e2e::run_case(tgt, &mode, &prog, out, &mut hist);
@@ -561,16 +573,25 @@ pub fn run(args: &Args, out: &mut Out) {
     // (4) end to end: whole generated files through rssl::compile, slots read from the returned metadata
     let programs = args.n.map(|n| n / 4).unwrap_or(if args.thorough() { 6000 } else { 300 });
     let mut erng = Rng::new(args.seed ^ 0xE2E);
+    // the declarator matrix first (thorough: several rounds with other kinds, lengths and groups)
+    let mut matrix = 0;
+    for _ in 0..(if args.thorough() { 12 } else { 1 }) {
+        for prog in e2e::matrix_progs(&mut erng) {
+            e2e::run_prog(&prog, &mut erng, out, &mut hist);
+            matrix += 1;
+        }
+    }
     for k in 0..programs {
         // every other program has at least two pipelines (a layout must not leak from one pipeline to the next)
         let prog = e2e::gen_prog(&mut erng, if k % 2 == 0 { 2 } else { 0 });
         e2e::run_prog(&prog, &mut erng, out, &mut hist);
     }
     out.stat(&format!(
-        "{{\"sequences\":{},\"configs_per_sequence\":{},\"e2e_programs\":{},\"hist\":{}}}",
+        "{{\"sequences\":{},\"configs_per_sequence\":{},\"e2e_programs\":{},\"e2e_declarator_matrix_programs\":{},\"hist\":{}}}",
         seqs,
         configs.len(),
         programs,
+        matrix,
         hist.json()
     ));
 }
